@@ -3,6 +3,7 @@
    (tied to the Rust serializers by the correspondence runs of C01 and of this check).
    Spec: Cddl/ConwayCddl.v (transcription of the Conway CDDL) judged by the validator of Cddl/Validator.v over the
    independent CBOR reader of Cbor/Item.v. *)
+From CSL Require Import Num.Value Cddl.NoZeroAssets.
 From CSL Require Import Base.Prelude Cbor.Head Cbor.Item Cbor.ItemProofs Codec.Schema Codec.SchemaProofs
   Ledger.Schemas Ledger.SchemasProofs
   Cddl.Rules Cddl.Validator Cddl.ValidatorProofs Cddl.ConwayCddl Cddl.ToItem Cddl.ToItemProofs Cddl.CanonProofs
@@ -127,6 +128,21 @@ Proof.
   - intros e fuel r. apply bytes_of_tree; assumption.
 Qed.
 Print Assumptions C03_conforms_partial.
+
+(* (5) builder clause, on the Value model of the C14 development (Num/Value.v, copied verbatim): the operations the
+   builder uses to compute change and to select coins (Value::checked_add / checked_sub / clamped_sub, MultiAsset::sub)
+   never produce a zero-quantity asset or an empty policy bundle from operands that have none.  The end-to-end clause
+   (every output of every built transaction) is judged on the real TransactionBuilder's bytes by the tx stream:
+   the body rule demands multiasset<positive_coin> = {+ policy => {+ asset => 1..} } in every output. *)
+Theorem C03_builder_no_zero_assets :
+  (forall a b c, value_pos a = true -> value_pos b = true -> value_checked_add a b = Ok c -> value_pos c = true) /\
+  (forall a b c, value_pos a = true -> value_checked_sub a b = Ok c -> value_pos c = true) /\
+  (forall a b, value_pos a = true -> value_pos (value_clamped_sub a b) = true) /\
+  (forall l r, ma_pos l = true -> ma_pos (ma_sub l r) = true).
+Proof.
+  split; [exact value_checked_add_pos|]. split; [exact value_checked_sub_pos|]. split; [exact value_clamped_sub_pos|exact ma_sub_pos].
+Qed.
+Print Assumptions C03_builder_no_zero_assets.
 
 (* ---- non-vacuity ---- *)
 Example C03_tables_nonempty :
